@@ -556,7 +556,7 @@ func (s *Sim) Yield(point string, obj interface{}) {
 			t.lockDepth--
 		}
 	}
-	if strings.HasPrefix(point, "auto.loop:") {
+	if strings.HasPrefix(point, "auto.loop:") || point == "atom.swap.retry" {
 		// an iteration of a Go-level loop in the evaluator: it costs simulated time like an evaluation step
 		// and is shown to the step hook, so that a loop that never reaches the evaluation loop again is
 		// neither free nor invisible
